@@ -1,4 +1,5 @@
 import Restli.Proofs.Escape
+import Restli.Proofs.RoundTrip3
 /-! # C01 — codec round trip (property theorems)
 
 Part 1: the three ROR2 string flavours, for **every byte string**, against the regenerated
@@ -45,3 +46,102 @@ example : unescape true (escapeWith tablesV2.querySafe (strBytes "a+b (c):'d',%4
   c01_query_escape_roundtrip tablesV2 c01_tables_ok_v2 _
 
 end Restli.Escape
+
+/-! Part 2: **whole values, byte level** (ROR2, all three flavours, v2 writer with key sorting).
+For every schema environment whose declarations have distinct enum symbols, field names (after
+include flattening) and union aliases, every type, every value a Go variable of the generated type
+can hold (`ValOK`: integers in range, float bit patterns in range, distinct map keys), at every
+nesting depth: what the generated `UnmarshalRestLi` — the cursor reader of `ror2_reader.go`,
+index arithmetic, scope tracking, required-field accounting and all — returns on the bytes the
+generated `MarshalRestLi` wrote is the original value with the record's own defaults filled in,
+entries in ascending key order and NaN canonical (`norm`); the whole input is consumed and no
+required field is reported missing.
+
+Hypotheses (never axioms): the regenerated escape tables satisfy `TablesOk` (decided above for the
+tables in /repo), and `FloatLaws`: `strconv`'s shortest float formatting parses back to the same
+bits. The latter is a statement about third-party code, modelled in Lib/Strconv.lean and compared
+with Go's strconv on every float of every run; it is not proved. -/
+namespace Restli.Codec
+open Restli.Escape
+
+theorem escLaws_path (t : Tables) (h : TablesOk t) : EscLaws (escapeWith t.pathSafe) false :=
+  ⟨c01_path_escape_roundtrip t h, fun b => (c01_escaped_is_clean t h b).1, fun b hb => (c01_escaped_nonempty t h b hb).1⟩
+theorem escLaws_query (t : Tables) (h : TablesOk t) : EscLaws (escapeWith t.querySafe) true :=
+  ⟨c01_query_escape_roundtrip t h, fun b => (c01_escaped_is_clean t h b).2.1, fun b hb => (c01_escaped_nonempty t h b hb).2.1⟩
+theorem escLaws_header (t : Tables) (h : TablesOk t) : EscLaws (replaceWith t.headerEscapes) false :=
+  ⟨c01_header_escape_roundtrip t h, fun b => (c01_escaped_is_clean t h b).2.2, fun b hb => (c01_escaped_nonempty t h b hb).2.2⟩
+
+/-- the writer configuration of the theorems below: nothing excluded, v2 key sorting -/
+def wcfg (env : Env) : EncCfg := { env := env, excl := .empty, sortKeys := true }
+/-- the matching reader: nothing excluded, any number of ignored leading scopes -/
+def rcfg (env : Env) (plus : Bool) (ign : Nat) : RCfg :=
+  { env := env, tracker := { excl := .empty, ignore := ign }, plus := plus, query := false }
+
+/-- URL-path flavour (`Ror2PathEscape` / `url.PathUnescape`) -/
+theorem c01_ror2_roundtrip_path (t : Tables) (ht : TablesOk t) (F : FloatLaws) (env : Env)
+    (hS : schemaOKb env = true) (ign f : Nat) (ty : Ty) (v : Value) (kvs : List (Bytes × Doc))
+    (hv : ValOK v) (henc : encode (wcfg env) f [] ty v = .ok (.obj kvs)) :
+    unmarshalRor2 (rcfg env false ign) ty (renderRor2 (escapeWith t.pathSafe) (.obj kvs)) =
+      .ok (norm env f ty v) { rest := [], start := false, missing := [] } :=
+  ror2_roundtrip_obj ⟨env, _, false, escLaws_path t ht, F, schemaOK_of_check env hS⟩ ign f ty v kvs hv henc
+
+/-- query-string flavour (`Ror2QueryEscape` / `url.QueryUnescape`) -/
+theorem c01_ror2_roundtrip_query (t : Tables) (ht : TablesOk t) (F : FloatLaws) (env : Env)
+    (hS : schemaOKb env = true) (ign f : Nat) (ty : Ty) (v : Value) (kvs : List (Bytes × Doc))
+    (hv : ValOK v) (henc : encode (wcfg env) f [] ty v = .ok (.obj kvs)) :
+    unmarshalRor2 (rcfg env true ign) ty (renderRor2 (escapeWith t.querySafe) (.obj kvs)) =
+      .ok (norm env f ty v) { rest := [], start := false, missing := [] } :=
+  ror2_roundtrip_obj ⟨env, _, true, escLaws_query t ht, F, schemaOK_of_check env hS⟩ ign f ty v kvs hv henc
+
+/-- header flavour (`headerEncodingEscaper` / `url.PathUnescape`) -/
+theorem c01_ror2_roundtrip_header (t : Tables) (ht : TablesOk t) (F : FloatLaws) (env : Env)
+    (hS : schemaOKb env = true) (ign f : Nat) (ty : Ty) (v : Value) (kvs : List (Bytes × Doc))
+    (hv : ValOK v) (henc : encode (wcfg env) f [] ty v = .ok (.obj kvs)) :
+    unmarshalRor2 (rcfg env false ign) ty (renderRor2 (replaceWith t.headerEscapes) (.obj kvs)) =
+      .ok (norm env f ty v) { rest := [], start := false, missing := [] } :=
+  ror2_roundtrip_obj ⟨env, _, false, escLaws_header t ht, F, schemaOK_of_check env hS⟩ ign f ty v kvs hv henc
+
+/-- values of every type (bare primitives, arrays, enums, fixed, typerefs too), nested anywhere
+inside a document: the tree reader on the raw-token tree of the writer's output returns the
+normalised value. Together with `bridge` (Proofs/Ror2Bridge.lean: the cursor reader on the
+rendering of a well-formed raw-token tree followed by a delimiter = the tree reader on the tree)
+this is the round trip for nested positions. -/
+theorem c01_ror2_roundtrip_nested (t : Tables) (ht : TablesOk t) (F : FloatLaws) (env : Env)
+    (hS : schemaOKb env = true) (ign f : Nat) (scopeW : List Bytes) (scopeR : List Seg) (top : Bool)
+    (ty : Ty) (v : Value) (doc : Doc) (hv : ValOK v) (henc : encode (wcfg env) f scopeW ty v = .ok doc) :
+    treeRead (tcOf (rcfg env true ign)) top scopeR ty (rawOf (escapeWith t.querySafe) doc) =
+      .ok (norm env f ty v) [] :=
+  roundtrip_tree ⟨env, _, true, escLaws_query t ht, F, schemaOK_of_check env hS⟩ ign f scopeW scopeR top ty v doc hv henc
+
+/-- …and every document the writer emits is the rendering of a well-formed raw-token tree -/
+theorem c01_ror2_output_wellformed (t : Tables) (ht : TablesOk t) (F : FloatLaws) (doc : Doc) :
+    renderRor2 (escapeWith t.querySafe) doc = renderRaw (rawOf (escapeWith t.querySafe) doc) ∧
+    RawWF (rawOf (escapeWith t.querySafe) doc) :=
+  ⟨renderRor2_eq_renderRaw _ doc, rawOf_wf _ true (escLaws_query t ht) F doc⟩
+
+/-! non-vacuity: a schema with an include, required / optional / defaulted fields, a union, an
+enum and a map of arrays, and a value with metacharacters, an empty key and an empty array, meet
+every hypothesis but `FloatLaws` (the strconv assumption, which this value does not exercise) -/
+def exEnv : Env :=
+  [("E", .enum [[65], [66]]),
+   ("U", .union false [([97], .prim .i32), ([98], .prim .str)]),
+   ("B", .record [] [⟨[120], .prim .bool, false, none⟩]),
+   ("R", .record ["B"] [⟨[114], .prim .i32, false, none⟩, ⟨[111], .prim .str, true, none⟩,
+        ⟨[100], .prim .i64, false, some (.i64 7)⟩, ⟨[117], .ref "U", false, none⟩,
+        ⟨[109], .map (.arr (.prim .i32)), false, none⟩, ⟨[101], .ref "E", false, none⟩])]
+
+def exVal : Value :=
+  .record [([120], .bool true), ([114], .i32 (-5)), ([117], .union [([98], .str [40, 37, 43, 32])]),
+    ([109], .map [([122], .arr [.i32 1, .i32 2]), ([], .arr [])]), ([101], .enum 2)]
+
+example : schemaOKb exEnv = true := by decide
+example : ValOK exVal := by simp [exVal, ValOK, ValOKKvs, ValOKList, KeysNodup]
+example : ∃ kvs, encode (wcfg exEnv) 6 [] (.ref "R") exVal = .ok (.obj kvs) := ⟨_, rfl⟩
+example (F : FloatLaws) :
+    unmarshalRor2 (rcfg exEnv true 0) (.ref "R")
+        (renderRor2 (escapeWith tablesV2.querySafe) (.obj _)) =
+      .ok (norm exEnv 6 (.ref "R") exVal) { rest := [], start := false, missing := [] } :=
+  c01_ror2_roundtrip_query tablesV2 c01_tables_ok_v2 F exEnv (by decide) 0 6 _ exVal _
+    (by simp [exVal, ValOK, ValOKKvs, ValOKList, KeysNodup]) rfl
+
+end Restli.Codec
